@@ -54,6 +54,8 @@ func scriptDecide(script []scriptEntry) func(refsmtp.Step) refsmtp.Action {
 			return refsmtp.Action{Kind: refsmtp.Drop}
 		case "stall":
 			return refsmtp.Action{Kind: refsmtp.Stall}
+		case "mute":
+			return refsmtp.Action{Kind: refsmtp.Mute}
 		case "reply":
 			return refsmtp.Action{Kind: refsmtp.Reply, Code: e.Code, Text: e.Text}
 		}
